@@ -5,6 +5,7 @@ package e2e
 
 import (
 	"context"
+	"crypto/sha256"
 	"crypto/tls"
 	"crypto/x509"
 	"encoding/json"
@@ -20,6 +21,8 @@ import (
 	"syscall"
 	"time"
 
+	"github.com/attestantio/dirk/rules"
+	standardrules "github.com/attestantio/dirk/rules/standard"
 	filesystem "github.com/wealdtech/go-eth2-wallet-store-filesystem"
 	"google.golang.org/grpc"
 	"google.golang.org/grpc/credentials"
@@ -221,6 +224,50 @@ type Config struct {
 	// RelStorage: storage-path is given relative ("protection"), which Dirk resolves against the base
 	// directory; every start of the process then happens from a different working directory.
 	RelStorage bool `json:"relative_storage_path,omitempty"`
+	// BigStore: the protection store starts out holding records of 1500 other validators (so that anything
+	// the daemon does to the whole store at start-up takes a noticeable time)
+	BigStore bool `json:"big_store,omitempty"`
+}
+
+var (
+	bigOnce sync.Once
+	bigDir  string
+	bigErr  error
+)
+
+// bigStore builds (once per process) a protection store with 1500 foreign records.
+func bigStore() (string, error) {
+	bigOnce.Do(func() {
+		vkit.Init()
+		bigDir, bigErr = os.MkdirTemp("", "e2e-bigstore")
+		if bigErr != nil {
+			return
+		}
+		ctx, cancel := context.WithCancel(context.Background())
+		defer cancel()
+		svc, err := standardrules.New(ctx, standardrules.WithStoragePath(bigDir))
+		if err != nil {
+			bigErr = err
+
+			return
+		}
+		in := map[[48]byte]*rules.SlashingProtection{}
+		for i := 0; i < 1500; i++ {
+			var k [48]byte
+			h := sha256.Sum256([]byte(fmt.Sprintf("foreign validator %d", i)))
+			copy(k[:], h[:])
+			copy(k[32:], h[:16])
+			in[k] = &rules.SlashingProtection{PubKey: append([]byte{}, k[:]...), HighestProposedSlot: int64(100 + i), HighestAttestedSourceEpoch: int64(3 + i%7), HighestAttestedTargetEpoch: int64(11 + i%7)}
+		}
+		if err := svc.ImportSlashingProtection(ctx, in); err != nil {
+			bigErr = err
+		}
+		if err := svc.Close(ctx); err != nil && bigErr == nil {
+			bigErr = err
+		}
+	})
+
+	return bigDir, bigErr
 }
 
 // Daemon is one running dirk process on its own copy of the fixture.
@@ -261,6 +308,15 @@ func NewDaemon(cfg *Config) (*Daemon, error) {
 	}
 	if err := copyDir(f.dir, dir); err != nil {
 		return nil, err
+	}
+	if cfg.BigStore && !cfg.RelStorage {
+		tmpl, err := bigStore()
+		if err != nil {
+			return nil, err
+		}
+		if err := copyDir(tmpl, filepath.Join(dir, "storage")); err != nil {
+			return nil, err
+		}
 	}
 	d := &Daemon{f: f, Dir: dir, cfg: cfg, log: filepath.Join(dir, "dirk.log")}
 	if err := d.Start(); err != nil {
